@@ -116,3 +116,10 @@ ENTRIES += [
               "are equal: with coercion on, def b(x=True) answered 1 once def a(x=1) had been served through the same validator",
          witness={'kind': 'vhistory', 'dispatcher': 'sync', 'coerce': True, 'history': [['pick.int', []]], 'probe': ['pick.bool', []]}),
 ]
+ENTRIES += [
+    dict(id='F27', property='C16', status='fixed', commit='d763ac8', bucket='C16/isolation',
+         what="PydanticSchemaExtractor built model names from the dotted method name; pydantic shortens such component names to the part after the last dot, so "
+              "'v1.add' and 'v2.add' shared their request / parameters / result components and one method was documented with the other's parameters",
+         witness={'kind': 'openapi-3.1.0', 'extractors': ['pydantic'], 'endpoints': 1, 'generations': 1, 'spec_opts': _O16, 'path': '/api', 'naming': 'dotted-twins',
+                  'methods': [{**_M16, 'params': [['int', False], ['int', False]]}, {**_M16, 'params': [['str', False]], 'ret': 'str'}]}),
+]
